@@ -349,7 +349,7 @@ CLAIMS = {
     "C05": {"decided": "Error discipline and reply counting of the connection loop on all CFG paths: an Err from executing a frame is converted to an error reply unless Connection/Io; exactly one reply push per loop iteration and no mid-batch exit; protocol errors are queued/answered and the connection closed; line-framed reply payloads pass a CR/LF filter; nothing reachable from EXEC yields NoResponse; the loop draining the parser is left only when parse_frame reports an incomplete buffer or an error (no complete command is stranded until the next read). The parser loop drains complete frames; no protocol error is decided from bytes that have not arrived (length guard must cover what a non-panicking content test looks at); Io-class errors cannot leave a command handler. Once Connection::read has fed the parser it returns `data available` (no error / `nothing read` exit after a feed, path-sensitive). Every write to the non-blocking client socket is a partial write of write_buffer[write_offset..] whose returned count is added to write_offset (no write_all / write!). An inline form recognised by a fixed-length comparison has a prefix test answering `incomplete` for a partial arrival. The timeout pass sends its nil reply only under a still-Blocked test (one reply per timed-out command).",
             "not_decided": "TCP segmentation independence of the whole I/O state machine, reply order under partial writes."},
     "C06": {"decided": "Interprocedural, type-restricted taint from client/wire numbers (str::parse, RespFrame::Integer) to panicking arithmetic (MIR overflow/neg/div/bounds asserts), indexing/slicing APIs, allocation sizes, float->Duration and clock arithmetic, with bounds derived by abstract interpretation over dominating comparisons, min/max/clamp and casts; bounded parser recursion; no client-timed sleep; script execution bound; lock re-entrancy; stream IDs (hand-written parser) and numbers read back from the stream's atomics are sources too; interprocedural error-origin analysis: only listener errors can propagate through `?` to Server::run (whose Err ends the process). Stored deadlines are bounded by a constant (the dump writers' unchecked clock arithmetic relies on it); no error reaches Server::run from storage/handlers; all client-driven recursion is depth-bounded. No closure run under a lock-holding higher-order function re-acquires that lock (also through generic-bound trait calls); no client-controlled iteration count without a bound or a data-dependent break. Every loop of the Lua -> RESP reply conversion that reads the Lua state has an exit decided by an element budget shared by the whole conversion.",
-            "not_decided": "absence of all panics (only input-tainted ones), memory exhaustion by legitimately large data, liveness under slow peers; bounds are hi/lo abstractions, not exact ranges."},
+            "not_decided": "index / slice arithmetic on positions derived from the length of the data being scanned (seeded change C06-glob-class-at-pattern-end-slices-past-the-end is recorded as not detected: the taint domain is numbers from the client / wire / file); absence of all panics (only input-tainted ones), memory exhaustion by legitimately large data, liveness under slow peers; bounds are hi/lo abstractions, not exact ranges."},
     "C07": {"decided": "Queue gate dominance in process_frame, FIFO-only use of the queue, one result per queued command with no early exit, transaction-state reset on every exit of EXEC/DISCARD (and before execution), no event-loop re-entry from EXEC, identity of the connection handed to re-dispatched commands. No command is refused inside MULTI on a path that skips the queue step; re-dispatch happens with the executing connection; the EXEC-without-MULTI arm is the only exit that needs no reset. A refused transaction-control command writes nothing to the transaction state before its error reply. EXEC re-reads the connection's database before every queued command (a queued SELECT in any spelling governs what follows).",
             "not_decided": "isolation against non-command threads (sweeper, replica apply); equality of each queued command's reply with its stand-alone reply."},
     "C08": {"decided": "Every dataset mutation site in the storage engine (incl. expiry purges) has a mark_modified of the same key (provenance) in the same function; was_modified_since compares the stamp and consults expiry; register_watch order; the abort test dominates execution and abort edges execute nothing; EXEC/DISCARD/UNWATCH clear the watch set on all paths. The check at EXEC and the unregistration at UNWATCH take the database from the watch record itself; WATCH of an already watched key keeps the first baseline.",
